@@ -168,7 +168,7 @@ BOUNDS = {
     ]),
     'thorough': dict(_COMMON, runs=[
         dict(managers=1, ids='all 9', levels=['full'], servers=1, depth=4),
-        dict(managers=1, ids=['m', 'é'], levels=['full'], servers=1, depth=5),
+        dict(managers=1, ids=['m'], levels=['full'], servers=1, depth=5, sharded_by='first event'),
         dict(managers=2, ids='all 72 ordered pairs', levels=['mid', 'small'], servers=1, depth=4),
         dict(managers=2, ids='6 pairs, one or two per id-pair class', levels=['mid', 'small'],
              servers=1, depth=5),
@@ -178,7 +178,7 @@ BOUNDS = {
         dict(managers=3, ids='the same 4 triples', levels=['mid', 'small', 'small'], servers=2, depth=4),
     ]),
 }
-DEEP_SINGLES = ['m', 'é']
+DEEP_SINGLES = ['m']
 CLASS_PAIRS = [['m', 'é'], ['m', 'm1'], ['m1', 'm'], ['a.c', 'abc'], ['abc', 'a.c'], ['m ', 'a*']]
 TWO_SERVER_PAIRS = [['m', 'm1'], ['a.c', 'abc'], ['abc', 'a.c'], ['é', 'a*']]
 TRIPLES = [['a.c', 'abc', 'm'], ['m', 'm1', 'm '], ['abc', 'a.c', 'a*'], ['é', 'm', '(x']]
